@@ -38,6 +38,9 @@ type FuncFacts struct {
 	accBusy     map[*ssa.Phi]bool
 	accMemo     map[*ssa.Phi]*Poly
 	accResult   map[*ssa.Phi]*Poly
+	constIDs    map[string]int
+	outMemo     map[*ssa.BasicBlock][]*Atom
+	polyMemo    map[polyMemoKey]polyMemoVal
 	loadReps    map[*ssa.UnOp]*ssa.UnOp
 	loadsByAddr map[string][]*ssa.UnOp
 	// LeafKey lets a rule name specific (unforwarded) values in linear forms, e.g. the load
@@ -575,15 +578,26 @@ func (ff *FuncFacts) id(v ssa.Value) int {
 	if v == NilMarker {
 		return -3
 	}
-	if c, ok := v.(*ssa.Const); ok {
-		// constants compare by value
-		for k, id := range ff.ids {
-			if kc, ok := k.(*ssa.Const); ok && types.Identical(kc.Type(), c.Type()) && constEq(kc, c) {
-				return id
-			}
-		}
-	}
 	if id, ok := ff.ids[v]; ok {
+		return id
+	}
+	if c, ok := v.(*ssa.Const); ok {
+		// constants compare by value: one id per (type, value), found through an index
+		// instead of a scan of every value seen so far
+		ck := c.Type().String() + "|nil"
+		if c.Value != nil {
+			ck = c.Type().String() + "|" + c.Value.ExactString()
+		}
+		if ff.constIDs == nil {
+			ff.constIDs = map[string]int{}
+		}
+		if id, ok := ff.constIDs[ck]; ok {
+			ff.ids[v] = id
+			return id
+		}
+		id := len(ff.ids) + len(ff.constIDs) + 1000000
+		ff.constIDs[ck] = id
+		ff.ids[v] = id
 		return id
 	}
 	id := len(ff.ids) + 1
@@ -1267,6 +1281,10 @@ func predIndex(p, b *ssa.BasicBlock) int {
 	return -1
 }
 
+// ThreadedSuccs exposes threadedSuccs; PredIndex the index of p among b's predecessors.
+func (ff *FuncFacts) ThreadedSuccs(b *ssa.BasicBlock, pi int) []*ssa.BasicBlock { return ff.threadedSuccs(b, pi) }
+func PredIndex(p, b *ssa.BasicBlock) int                                         { return predIndex(p, b) }
+
 // ReachesWithoutT is ReachesWithout over the jump-threaded CFG (threadedSuccs).
 func (ff *FuncFacts) ReachesWithoutT(from ssa.Instruction, target func(ssa.Instruction) bool, stop func(ssa.Instruction) bool) (ssa.Instruction, bool) {
 	fn := ff.Fn
@@ -1373,11 +1391,22 @@ func (ff *FuncFacts) OutFacts(b *ssa.BasicBlock) []*Atom {
 	if b == nil || ff.in[b.Index] == nil {
 		return nil
 	}
+	if ff.done {
+		if r, ok := ff.outMemo[b]; ok {
+			return r
+		}
+	}
 	out := make([]*Atom, 0, len(ff.in[b.Index]))
 	for _, a := range ff.in[b.Index] {
 		out = append(out, a)
 	}
 	sort.Slice(out, func(i, j int) bool { return ff.key(out[i]) < ff.key(out[j]) })
+	if ff.done {
+		if ff.outMemo == nil {
+			ff.outMemo = map[*ssa.BasicBlock][]*Atom{}
+		}
+		ff.outMemo[b] = out
+	}
 	return out
 }
 
@@ -1524,4 +1553,13 @@ func (ff *FuncFacts) MemCases(v ssa.Value) ([]ValueCase, bool) {
 		out = append(out, ValueCase{ff.Fwd(d.val), ff.At(d.st)})
 	}
 	return out, len(out) > 0
+}
+
+type polyMemoKey struct {
+	v ssa.Value
+}
+
+type polyMemoVal struct {
+	p     *Poly
+	depth int
 }
